@@ -246,6 +246,106 @@ theorem commitPhase_shape' (e : PlanEnv) (c : PlanCfg) (s : PState) (r : PState 
 theorem commitPhase_shape (e : PlanEnv) (c : PlanCfg) (s : PState) :
     ∃ C, (commitPhase e c s).1.evs = C ++ s.evs ∧ CommitShape e c C (commitPhase e c s).2 :=
   commitPhase_shape' e c s _ rfl
+theorem mem_addsRev {ev : Ev} {l : List Str} : ev ∈ addsRev l ↔ ∃ p ∈ l, ev = .add p := by
+  simp [addsRev, eq_comm]
+
+theorem mem_hookPre {ev : Ev} {e : PlanEnv} {c : PlanCfg} :
+    ev ∈ hookPre e c ↔ ev = .preHook e.startVersion e.announced ∧ c.preHook = true := by
+  unfold hookPre; split <;> simp_all
+
+theorem mem_hookPost {ev : Ev} {e : PlanEnv} {c : PlanCfg} :
+    ev ∈ hookPost e c ↔ ev = .postHook e.startVersion e.announced ∧ c.postHook = true := by
+  unfold hookPost; split <;> simp_all
+
+theorem mem_tagL {ev : Ev} {c : PlanCfg} : ev ∈ tagL c ↔ ev = tagCmd c ∧ c.tag = true := by
+  unfold tagL; split <;> simp_all
+
+theorem mem_uptoCommit {ev : Ev} {e : PlanEnv} {c : PlanCfg} :
+    ev ∈ uptoCommit e c ↔ ev = .cmd "commit" ∨ (∃ p ∈ e.files, ev = .add p) ∨
+      (ev = .preHook e.startVersion e.announced ∧ c.preHook = true) := by
+  simp [uptoCommit, mem_addsRev, mem_hookPre]
+
+theorem commit_mem_uptoCommit (e : PlanEnv) (c : PlanCfg) : Ev.cmd "commit" ∈ uptoCommit e c := by
+  simp [uptoCommit]
+
+/-- what an event logged by `commitPhase` can be -/
+theorem CommitShape.mem {e : PlanEnv} {c : PlanCfg} {C : List Ev} {o : Outcome}
+    (h : CommitShape e c C o) {ev : Ev} (hev : ev ∈ C) :
+    (ev = .preHook e.startVersion e.announced ∧ c.preHook = true) ∨
+    (∃ p ∈ e.files, ev = .add p) ∨ ev = .cmd "commit" ∨
+    (ev = .postHook e.startVersion e.announced ∧ c.postHook = true ∧ Ev.cmd "commit" ∈ C) ∨
+    (ev = tagCmd c ∧ c.tag = true ∧ Ev.cmd "commit" ∈ C) ∨
+    (RemEv ev ∧ c.push = true ∧ Ev.cmd "commit" ∈ C) ∨
+    (ev = pushCmd c ∧ c.push = true ∧ Ev.cmd "commit" ∈ C) := by
+  have hcm := commit_mem_uptoCommit e c
+  cases h with
+  | preFail hp _ => simp_all
+  | addFail l1 l2 _ hl =>
+    simp only [List.mem_append, mem_addsRev, mem_hookPre] at hev
+    rcases hev with ⟨p, hp, rfl⟩ | h
+    · exact .inr (.inl ⟨p, by simp [hl, hp], rfl⟩)
+    · exact .inl h
+  | commitFail _ => simp only [mem_uptoCommit] at hev; grind
+  | postFail _ hq _ =>
+    simp only [List.mem_cons, mem_uptoCommit] at hev
+    simp only [List.mem_cons, hcm, or_true, and_true]
+    grind
+  | tagFail _ _ ht =>
+    simp only [List.mem_cons, List.mem_append, mem_uptoCommit, mem_hookPost] at hev
+    simp only [List.mem_cons, List.mem_append, hcm, or_true, and_true]
+    grind
+  | noPush _ _ _ =>
+    simp only [List.mem_append, mem_uptoCommit, mem_hookPost, mem_tagL] at hev
+    simp only [List.mem_append, hcm, or_true, and_true]
+    grind
+  | noRemote probes _ _ hpush hpr =>
+    simp only [List.mem_append, mem_uptoCommit, mem_hookPost, mem_tagL] at hev
+    simp only [List.mem_append, hcm, or_true, and_true]
+    have := hpr ev
+    grind
+  | push probes o _ _ hpush hpr =>
+    simp only [List.mem_cons, List.mem_append, mem_uptoCommit, mem_hookPost, mem_tagL] at hev
+    simp only [List.mem_cons, List.mem_append, hcm, or_true, and_true]
+    have := hpr ev
+    grind
+
+/-- a successful commit phase staged every file, committed and (if enabled) tagged -/
+theorem CommitShape.ok_complete {e : PlanEnv} {c : PlanCfg} {C : List Ev}
+    (h : CommitShape e c C .ok) :
+    (∀ p ∈ e.files, Ev.add p ∈ C) ∧ Ev.cmd "commit" ∈ C ∧ (c.tag = true → tagCmd c ∈ C) := by
+  have hup : (∀ p ∈ e.files, Ev.add p ∈ uptoCommit e c) ∧ Ev.cmd "commit" ∈ uptoCommit e c :=
+    ⟨fun p hp => mem_uptoCommit.2 (.inr (.inl ⟨p, hp, rfl⟩)), commit_mem_uptoCommit e c⟩
+  cases h with
+  | noPush _ _ _ => simp only [List.mem_append, mem_tagL]; grind
+  | noRemote probes _ _ _ _ => simp only [List.mem_append, mem_tagL]; grind
+  | push probes _ _ _ _ _ => simp only [List.mem_cons, List.mem_append, mem_tagL]; grind
+
+theorem CommitShape.pre_fail {e : PlanEnv} {c : PlanCfg} {C : List Ev} {o : Outcome}
+    (h : CommitShape e c C o) (hp : e.preOk = false) {x y : Str} (hm : Ev.preHook x y ∈ C) :
+    C.head? = some (.preHook x y) ∧ o = .failed := by
+  have hpre : c.preHook = true := by
+    have := h.mem hm
+    simp [tagCmd, pushCmd, RemEv] at this
+    exact this.2
+  cases h <;> simp_all
+
+theorem CommitShape.post_fail {e : PlanEnv} {c : PlanCfg} {C : List Ev} {o : Outcome}
+    (h : CommitShape e c C o) (hp : e.postOk = false) {x y : Str} (hm : Ev.postHook x y ∈ C) :
+    C.head? = some (.postHook x y) ∧ o = .failed := by
+  have hpost : c.postHook = true := by
+    have := h.mem hm
+    simp [tagCmd, pushCmd, RemEv] at this
+    exact this.2.1
+  cases h with
+  | preFail _ _ => simp at hm
+  | addFail l1 l2 _ _ => simp [mem_addsRev, mem_hookPre] at hm
+  | commitFail _ => simp [mem_uptoCommit] at hm
+  | postFail _ _ _ => simp [mem_uptoCommit] at hm; simp [hm]
+  | tagFail _ hq _ => simp_all
+  | noPush _ hq _ => simp_all
+  | noRemote _ _ hq _ _ => simp_all
+  | push _ _ _ hq _ _ => simp_all
+
 /-- the possible traces and exit codes of `plan` once the options are accepted -/
 inductive PlanShape (c : PlanCfg) (a : PlanCli) (e : PlanEnv) : List Ev → Nat → Prop
   | early (T : List Ev) (code : Nat) : (∀ ev ∈ T, TagEv a.fetch ev) → (code = 1 ∨ a.dry = true) →
@@ -378,5 +478,224 @@ theorem plan_shape' (c0 c : PlanCfg) (a : PlanCli) (e : PlanEnv)
 theorem plan_shape (c0 c : PlanCfg) (a : PlanCli) (e : PlanEnv)
     (hc : parseVcsOptions c0 a = some c) : PlanShape c a e (plan c0 a e).1 (plan c0 a e).2 :=
   plan_shape' c0 c a e hc _ rfl
+
+/-- where an event of the trace comes from -/
+theorem PlanShape.mem {c : PlanCfg} {a : PlanCli} {e : PlanEnv} {tr : List Ev} {code : Nat}
+    (sh : PlanShape c a e tr code) {ev : Ev} (hev : ev ∈ tr) :
+    TagEv a.fetch ev ∨ (a.dry = false ∧
+      ((c.commit = true ∧ ev = .cmd "status") ∨ ev = .rewrite ∨
+       (c.commit = true ∧ e.dirtyAbort = false ∧ Ev.cmd "status" ∈ tr ∧ Ev.rewrite ∈ tr ∧
+         ∃ C o, CommitShape e c C o ∧ ev ∈ C ∧ (∀ x ∈ C, x ∈ tr) ∧
+           (code = if o = .ok then 0 else 1) ∧
+           (∀ x, C.head? = some x → tr.getLast? = some x)))) := by
+  have hu : TagEv a.fetch (.cmd "is_usable") := .inl rfl
+  cases sh with
+  | early T code hT _ => exact .inl (hT ev hev)
+  | dirty T hT hc hd =>
+    simp only [List.mem_append, List.mem_cons, List.not_mem_nil, or_false] at hev
+    rcases hev with h | rfl | rfl
+    · exact .inl (hT ev h)
+    · exact .inl hu
+    · exact .inr ⟨hd, .inl ⟨hc, rfl⟩⟩
+  | unusable T U hT hd hU =>
+    rcases hU with rfl | rfl <;>
+      simp only [List.mem_append, List.mem_cons, List.not_mem_nil, or_false] at hev
+    · exact .inl (hT ev hev)
+    · rcases hev with h | rfl
+      · exact .inl (hT ev h)
+      · exact .inl hu
+  | noVcs T U hT hd hU =>
+    rcases hU with rfl | rfl <;>
+      simp only [List.mem_append, List.mem_cons, List.not_mem_nil, or_false] at hev
+    · rcases hev with h | rfl
+      · exact .inl (hT ev h)
+      · exact .inr ⟨hd, .inr (.inl rfl)⟩
+    · rcases hev with (h | rfl) | rfl
+      · exact .inl (hT ev h)
+      · exact .inl hu
+      · exact .inr ⟨hd, .inr (.inl rfl)⟩
+  | commit T C o hT hc hd hda hsh =>
+    simp only [List.mem_append, List.mem_cons, List.not_mem_nil, or_false, List.mem_reverse] at hev
+    rcases hev with (h | rfl | rfl | rfl) | h
+    · exact .inl (hT ev h)
+    · exact .inl hu
+    · exact .inr ⟨hd, .inl ⟨hc, rfl⟩⟩
+    · exact .inr ⟨hd, .inr (.inl rfl)⟩
+    · refine .inr ⟨hd, .inr (.inr ⟨hc, hda, by simp, by simp, C, o, hsh, h, by simp +contextual,
+        rfl, ?_⟩)⟩
+      intro x hx
+      cases C with
+      | nil => simp at hx
+      | cons y C' =>
+        simp only [List.head?_cons, Option.some.injEq] at hx
+        subst hx
+        simp only [List.reverse_cons, ← List.append_assoc]
+        rw [List.getLast?_append]; simp
+
+/-- when the dirty check aborts, the run ends right after `status` -/
+theorem PlanShape.dirty_stop {c : PlanCfg} {a : PlanCli} {e : PlanEnv} {tr : List Ev} {code : Nat}
+    (sh : PlanShape c a e tr code) (hd : e.dirtyAbort = true) (hs : Ev.cmd "status" ∈ tr) :
+    code = 1 ∧ ∀ ev ∈ tr, TagEv a.fetch ev ∨ ev = .cmd "status" := by
+  have hne : ∀ T : List Ev, (∀ ev ∈ T, TagEv a.fetch ev) → Ev.cmd "status" ∉ T := by
+    intro T hT h
+    have := hT _ h
+    simp [TagEv] at this
+  cases sh with
+  | early _ _ hT _ => exact absurd hs (hne _ hT)
+  | dirty T hT _ _ =>
+    refine ⟨rfl, fun ev hev => ?_⟩
+    simp only [List.mem_append, List.mem_cons, List.not_mem_nil, or_false] at hev
+    rcases hev with h | rfl | rfl
+    · exact .inl (hT ev h)
+    · exact .inl (.inl rfl)
+    · exact .inr rfl
+  | unusable T U hT _ hU =>
+    rcases hU with rfl | rfl <;> simp at hs <;> exact absurd hs (hne T hT)
+  | noVcs T U hT _ hU =>
+    rcases hU with rfl | rfl <;> simp at hs <;> exact absurd hs (hne T hT)
+  | commit T C o _ _ _ hda _ => simp [hd] at hda
+
+/-! ### order of the steps -/
+
+/-- position of an event in the documented step order (copy of `Ev.rank` in Props/C10) -/
+def Ev.rk : Ev → Option Nat
+  | .cmd n =>
+    if n == "status" then some 0 else if n == "commit" then some 4
+    else if n == "tag" || n == "tag_light" then some 6
+    else if n == "push" || n == "push_tag" then some 7 else none
+  | .rewrite => some 1
+  | .preHook _ _ => some 2
+  | .add _ => some 3
+  | .postHook _ _ => some 5
+
+/-- the ranks of `l` (most recent first) are decreasing and lie in `[lo, hi]` -/
+def Rk (lo hi : Nat) (l : List Ev) : Prop :=
+  (l.filterMap Ev.rk).Pairwise (· ≥ ·) ∧ ∀ x ∈ l.filterMap Ev.rk, lo ≤ x ∧ x ≤ hi
+
+theorem Rk.append {lo m m' hi : Nat} {A B : List Ev} (hA : Rk m hi A) (hB : Rk lo m' B)
+    (h1 : lo ≤ m') (h2 : m' ≤ m) (h3 : m ≤ hi) : Rk lo hi (A ++ B) := by
+  obtain ⟨pA, bA⟩ := hA
+  obtain ⟨pB, bB⟩ := hB
+  refine ⟨?_, ?_⟩
+  · rw [List.filterMap_append, List.pairwise_append]
+    refine ⟨pA, pB, fun x hx y hy => ?_⟩
+    have := bA x hx; have := bB y hy
+    show y ≤ x
+    omega
+  · intro x hx
+    rw [List.filterMap_append, List.mem_append] at hx
+    rcases hx with hx | hx
+    · have := bA x hx; omega
+    · have := bB x hx; omega
+
+theorem Rk.of_none {lo hi : Nat} {l : List Ev} (h : ∀ ev ∈ l, ev.rk = none) : Rk lo hi l := by
+  have : l.filterMap Ev.rk = [] := List.filterMap_eq_nil_iff.2 h
+  simp [Rk, this]
+
+theorem Rk.single {ev : Ev} {r : Nat} (h : ev.rk = some r) : Rk r r [ev] := by
+  simp [Rk, h]
+
+theorem Rk.mono {lo hi lo' hi' : Nat} {l : List Ev} (h : Rk lo hi l) (h1 : lo' ≤ lo)
+    (h2 : hi ≤ hi') : Rk lo' hi' l :=
+  ⟨h.1, fun x hx => by have := h.2 x hx; omega⟩
+
+theorem Rk.cons {lo m hi r : Nat} {ev : Ev} {B : List Ev} (h : ev.rk = some r) (hB : Rk lo m B)
+    (h1 : lo ≤ m) (h2 : m ≤ r) (h3 : r ≤ hi) : Rk lo hi (ev :: B) :=
+  (Rk.append (Rk.single h) hB h1 h2 (Nat.le_refl r)).mono (Nat.le_refl lo) h3
+
+theorem Rk.cons_none {lo hi : Nat} {ev : Ev} {B : List Ev} (h : ev.rk = none) (hB : Rk lo hi B) :
+    Rk lo hi (ev :: B) := by
+  simpa [Rk, h] using hB
+
+theorem rk_hookPre (e : PlanEnv) (c : PlanCfg) : Rk 2 2 (hookPre e c) := by
+  unfold hookPre; split <;> simp [Rk, Ev.rk]
+theorem rk_hookPost (e : PlanEnv) (c : PlanCfg) : Rk 5 5 (hookPost e c) := by
+  unfold hookPost; split <;> simp [Rk, Ev.rk]
+theorem rk_tagCmd (c : PlanCfg) : (tagCmd c).rk = some 6 := by
+  unfold tagCmd; split <;> simp [Ev.rk]
+theorem rk_pushCmd (c : PlanCfg) : (pushCmd c).rk = some 7 := by
+  unfold pushCmd; split <;> simp [Ev.rk]
+theorem rk_tagL (c : PlanCfg) : Rk 6 6 (tagL c) := by
+  unfold tagL; split
+  · exact Rk.single (rk_tagCmd c)
+  · simp [Rk]
+theorem rk_addsRev (l : List Str) : Rk 3 3 (addsRev l) := by
+  induction l with
+  | nil => simp [Rk, addsRev]
+  | cons p ps ih =>
+    have : addsRev (p :: ps) = addsRev ps ++ [.add p] := by simp [addsRev]
+    rw [this]
+    exact Rk.append (m := 3) (m' := 3) ih (Rk.single (by simp [Ev.rk])) (by omega) (by omega)
+      (by omega)
+theorem rk_uptoCommit (e : PlanEnv) (c : PlanCfg) : Rk 2 4 (uptoCommit e c) :=
+  Rk.cons (lo := 2) (m := 3) (r := 4) (hi := 4) (by simp [Ev.rk])
+    (Rk.append (m := 3) (m' := 2) (rk_addsRev e.files) (rk_hookPre e c) (by omega) (by omega)
+      (by omega))
+    (by omega) (by omega) (by omega)
+theorem rk_probes {lo hi : Nat} {l : List Ev} (h : ∀ ev ∈ l, RemEv ev) : Rk lo hi l :=
+  Rk.of_none fun ev hev => by rcases h ev hev with rfl | rfl <;> simp [Ev.rk]
+theorem rk_tagEvs {lo hi : Nat} {f : Bool} {l : List Ev} (h : ∀ ev ∈ l, TagEv f ev) : Rk lo hi l :=
+  Rk.of_none fun ev hev => by
+    rcases h ev hev with rfl | rfl | rfl | ⟨-, rfl | rfl | rfl⟩ <;> simp [Ev.rk]
+
+theorem CommitShape.rk {e : PlanEnv} {c : PlanCfg} {C : List Ev} {o : Outcome}
+    (h : CommitShape e c C o) : Rk 2 7 C := by
+  have hup := rk_uptoCommit e c
+  have hpo : Rk 2 5 (hookPost e c ++ uptoCommit e c) :=
+    Rk.append (m := 5) (m' := 4) (rk_hookPost e c) hup (by omega) (by omega) (by omega)
+  have htl : Rk 2 6 (tagL c ++ hookPost e c ++ uptoCommit e c) := by
+    rw [List.append_assoc]
+    exact Rk.append (m := 6) (m' := 5) (rk_tagL c) hpo (by omega) (by omega) (by omega)
+  cases h with
+  | preFail _ _ => exact (Rk.single (r := 2) (by simp [Ev.rk])).mono (by omega) (by omega)
+  | addFail l1 l2 _ _ =>
+    exact (Rk.append (m := 3) (m' := 2) (rk_addsRev l1) (rk_hookPre e c) (by omega) (by omega)
+      (by omega)).mono (by omega) (by omega)
+  | commitFail _ => exact hup.mono (by omega) (by omega)
+  | postFail _ _ _ =>
+    exact Rk.cons (m := 4) (r := 5) (by simp [Ev.rk]) hup (by omega) (by omega) (by omega)
+  | tagFail _ _ _ => exact Rk.cons (m := 5) (rk_tagCmd c) hpo (by omega) (by omega) (by omega)
+  | noPush _ _ _ => exact htl.mono (by omega) (by omega)
+  | noRemote probes _ _ _ hpr =>
+    rw [List.append_assoc, List.append_assoc, ← List.append_assoc (tagL c)]
+    exact Rk.append (m := 6) (m' := 6) (rk_probes hpr) htl (by omega) (by omega) (by omega)
+  | push probes o _ _ _ hpr =>
+    rw [List.append_assoc, List.append_assoc, ← List.append_assoc (tagL c)]
+    exact Rk.cons (m := 6) (rk_pushCmd c)
+      (Rk.append (m := 6) (m' := 6) (hi := 6) (rk_probes hpr) htl (by omega) (by omega) (by omega))
+      (by omega) (by omega) (by omega)
+
+theorem PlanShape.rk {c : PlanCfg} {a : PlanCli} {e : PlanEnv} {tr : List Ev} {code : Nat}
+    (sh : PlanShape c a e tr code) : Rk 0 7 tr.reverse := by
+  have hT : ∀ {T : List Ev} {lo hi : Nat}, (∀ ev ∈ T, TagEv a.fetch ev) → Rk lo hi T.reverse :=
+    fun h => rk_tagEvs (f := a.fetch) (by simpa using h)
+  have hu : (Ev.cmd "is_usable").rk = none := by simp [Ev.rk]
+  have hst : ∀ {T : List Ev}, (∀ ev ∈ T, TagEv a.fetch ev) →
+      Rk 0 0 (.cmd "status" :: .cmd "is_usable" :: T.reverse) := fun h =>
+    Rk.cons (m := 0) (r := 0) (by simp [Ev.rk]) (Rk.cons_none hu (hT h)) (by omega) (by omega)
+      (by omega)
+  cases sh with
+  | early _ _ h _ => exact hT h
+  | dirty T h _ _ =>
+    simp only [List.reverse_append, List.reverse_cons, List.reverse_nil, List.nil_append,
+      List.cons_append]
+    exact (hst h).mono (by omega) (by omega)
+  | unusable T U h _ hU =>
+    rcases hU with rfl | rfl
+    · simpa using hT h
+    · simpa using Rk.cons_none hu (hT h)
+  | noVcs T U h _ hU =>
+    rcases hU with rfl | rfl
+    · simpa using Rk.cons (lo := 0) (m := 0) (r := 1) (hi := 7) (ev := .rewrite) (by simp [Ev.rk])
+        (hT h) (by omega) (by omega) (by omega)
+    · simpa using Rk.cons (lo := 0) (m := 0) (r := 1) (hi := 7) (ev := .rewrite) (by simp [Ev.rk])
+        (Rk.cons_none hu (hT h)) (by omega) (by omega) (by omega)
+  | commit T C o h _ _ _ hsh =>
+    simp only [List.reverse_append, List.reverse_cons, List.reverse_nil, List.nil_append,
+      List.cons_append, List.reverse_reverse]
+    exact Rk.append (m := 2) (m' := 1) hsh.rk
+      (Rk.cons (m := 0) (r := 1) (ev := .rewrite) (by simp [Ev.rk]) (hst h) (by omega) (by omega)
+        (by omega)) (by omega) (by omega) (by omega)
+
 
 end BV
